@@ -111,6 +111,47 @@ def sfs_stdout_to(args, stdin, where, kind="release", timeout=30):
                 pass
 
 
+def sfs_nonblocking_stdout(args, stdin, kind="release", timeout=60, pause=0.002, piece=4096):
+    """stdout is a pipe in O_NONBLOCK mode (what a parent that multiplexes its children, e.g. a job scheduler or an async runtime,
+    hands down) read by a SLOW consumer: write() returns EAGAIN whenever the pipe is full. Returns a Run with everything that arrived."""
+    import fcntl, time as _t
+    exe = build.cli(kind)
+    e = dict(BASE_ENV)
+    argv = [exe] + [a if isinstance(a, bytes) else str(a) for a in args]
+    rd, wr = os.pipe()
+    fcntl.fcntl(wr, fcntl.F_SETFL, fcntl.fcntl(wr, fcntl.F_GETFL) | os.O_NONBLOCK)
+    try:
+        fcntl.fcntl(wr, 1031, 4096)          # F_SETPIPE_SZ: the smallest pipe, so that it fills up quickly
+    except OSError:
+        pass
+    p = subprocess.Popen(argv, stdin=subprocess.PIPE, stdout=wr, stderr=subprocess.PIPE, env=e)
+    os.close(wr)
+    import threading
+    def feed():
+        try:
+            p.stdin.write(stdin or b"")
+            p.stdin.close()
+        except OSError:
+            pass
+    th = threading.Thread(target=feed, daemon=True)
+    th.start()
+    chunks, t0 = [], _t.time()
+    while True:
+        _t.sleep(pause)
+        b = os.read(rd, piece)
+        if not b:
+            break
+        chunks.append(b)
+        if _t.time() - t0 > timeout:
+            p.kill()
+            break
+    os.close(rd)
+    err = p.stderr.read()
+    rc = p.wait()
+    th.join(timeout=2)
+    return Run(argv[1:], rc, b"".join(chunks), err, stdin=stdin, kind=kind)
+
+
 def pipeline(stages, stdin=None, kind="release", timeout=30):
     """Run stages (list of arg lists) connected by pipes in memory; returns list of Run."""
     runs = []
